@@ -49,7 +49,7 @@ Op == /\ Rec[l].ev = "Op"
              \* steps executed by a walk: known from the trace handed to it (trace kinds), else
              \* the advance of the simulation's own counter (path-driven walks)
              expectOk == r.name \in {"Set", "Relist", "Init", "Step", "Walk"}
-             n == IF r.name = "Walk" /\ r.ok /\ kind \notin {"slts", "timed"} THEN r.arg
+             n == IF r.name = "Walk" /\ r.ok /\ kind \notin {"slts", "timed", "vec"} THEN r.arg
                   ELSE IF r.name = "WalkErr" /\ ~r.ok THEN r.arg - 1 ELSE r.adv
              pred == CASE r.name = "Set" -> DoSet(nd, r.arg)
                        [] r.name = "Relist" -> DoRelist(nd, U0, r.arg)
